@@ -5,6 +5,7 @@ open Vx
 open Base
 open C09Model
 open C10Model
+open C10FileModel
 
 (* decimal <-> N of any size (OCaml ints hold 62 bits only; offsets and durations are 64-bit) *)
 let n10 = n_of_int 10
@@ -113,33 +114,56 @@ let mdat_model (a : string array) : string =
       | [s; e] -> (n_of_dec s, n_of_dec e) | _ -> failwith "range") (split_on ',' a.(5)) in
   res_str (fun out -> "ok/" ^ (match out with [] -> "" | _ -> hex_of_bytes out)) (write_mdat file true m rs)
 
-(* cropMP4 on the virtual file: observed = <base>/<old size without mdat>/(err | ok/<new mdat start>/...) *)
+(* cropMP4 on the virtual file: observed = <base>/<old size without mdat>/<rest>/(err | ok/<new mdat start>/...)
+   arg = ms:mdatFirst:inHdr:between:pad:mvts:payloadLen:zero:timescales[:handlers[:mem]] *)
 let virt_model (tbs : tables list) (a : string array) (obs : string) : string =
   match split_on '/' obs with
-  | base :: oldswm :: rest ->
+  | base :: oldswm :: rest :: _ ->
     let base_n = n_of_dec base in
     let tss = L.map n_of_dec (split_on ',' a.(8)) in
     let mvts = n_of_dec a.(5) in
-    let traks = L.mapi (fun i (t, ts) -> { ti_id = n_of_int (i + 1); ti_ts = ts;
-                                           ti_tb = with_offsets t (fun o -> BinNat.N.add o base_n) })
-        (L.combine tbs tss) in
-    let swm = match rest with "ok" :: ms :: _ -> n_of_dec ms | _ -> n_of_dec oldswm in
+    let handlers =
+      if Array.length a >= 10 then
+        L.map (fun h -> n_of_int (match h with "v" -> 0 | "s" -> 1 | _ -> 2)) (split_on ',' a.(9))
+      else L.mapi (fun i _ -> n_of_int (if i = 0 then 0 else 1)) tbs in
+    let mem = Array.length a >= 11 && a.(10) = "mem" in
+    let hs = L.mapi (fun i ((t, ts), h) ->
+        { th_handler = h;
+          th_trak = { ti_id = n_of_int (i + 1); ti_ts = ts; ti_tb = with_offsets t (fun o -> BinNat.N.add o base_n) } })
+        (L.combine (L.combine tbs tss) handlers) in
     let total t = L.fold_left2 (fun acc c d -> BinNat.N.add acc (BinNat.N.mul c d)) BinNums.N0 t.t_stts_count t.t_stts_delta in
-    let tks = L.map (fun tr -> ((BinNat.N.div (BinNat.N.mul (total tr.ti_tb) mvts) tr.ti_ts, total tr.ti_tb), None)) traks in
-    let r = match crop_mp4 (L.hd traks) traks (n_of_dec a.(0)) swm with
-      | Ok (et, ((tbs', ranges), ks)) ->
-        (match write_upto_mdat_durs et (L.hd traks).ti_ts mvts tks with
+    let tks = L.map (fun h -> let tr = h.th_trak in
+                      ((BinNat.N.div (BinNat.N.mul (total tr.ti_tb) mvts) tr.ti_ts, total tr.ti_tb), None)) hs in
+    let r = match crop_mp4_file hs (n_of_dec a.(0)) (n_of_dec rest) with
+      | Ok ((et, ets), (((tbs', ranges), ks), swm)) ->
+        (match write_upto_mdat_durs et ets mvts tks with
          | Ok (nd, tks') ->
-           let psz = ranges_size ranges BinNums.N0 in
-           if BinNat.N.leb (n_of_dec "4294967296") (BinNat.N.add psz (n_of_int 8)) then "err"
-           else
-             S.concat "/" ["ok"; dec_of_n swm; dec_of_n (BinNat.N.add psz (n_of_int 8));
-                           dec_of_n (BinNat.N.add swm (BinNat.N.add psz (n_of_int 8)));
+           let fin msz cks =
+             S.concat "/" ["ok"; dec_of_n swm; dec_of_n msz; dec_of_n (BinNat.N.add swm msz);
                            S.concat "," (L.map dec_of_n ks); S.concat "|" (L.map offs_str tbs'); dec_of_n nd;
-                           S.concat "," (L.map (fun ((tk, _), _) -> dec_of_n tk) tks')]
+                           S.concat "," (L.map (fun ((tk, _), _) -> dec_of_n tk) tks'); cks] in
+           if a.(7) = "1" then begin
+             (* multi-gigabyte virtual payload: sizes only *)
+             let psz = ranges_size ranges BinNums.N0 in
+             if BinNat.N.leb (n_of_dec "4294967296") (BinNat.N.add psz (n_of_int 8)) then "err"
+             else fin (BinNat.N.add psz (n_of_int 8)) "-"
+           end else begin
+             let in_hdr = int_of_string a.(2) and pay = int_of_string a.(6) in
+             let b = int_of_string base in
+             let flen = int_of_string oldswm + in_hdr + pay in
+             let file = L.init flen (fun p -> if p >= b && p < b + pay then file_byte p else BinNums.N0) in
+             let sp = n_of_int (b - in_hdr) and large = in_hdr = 16 and pl = n_of_int pay in
+             let m = if mem then C08Model.mdat_mem file sp large pl else C08Model.mdat_lazy sp large pl in
+             match write_mdat file true m ranges with
+             | Ok mb ->
+               let c = ref 0 and i = ref 0 in
+               L.iter (fun x -> (if !i >= 8 then c := (!c + (!i - 7) * int_of_n x) mod 1000000007); incr i) mb;
+               fin (n_of_int (L.length mb)) (string_of_int !c)
+             | Err -> "err" | Panic -> "panic" | OutOfFuel -> "outoffuel"
+           end
          | Err -> "err" | Panic -> "panic" | OutOfFuel -> "outoffuel")
       | Err -> "err" | Panic -> "panic" | OutOfFuel -> "outoffuel" in
-    base ^ "/" ^ oldswm ^ "/" ^ r
+    base ^ "/" ^ oldswm ^ "/" ^ rest ^ "/" ^ r
   | _ -> "badobs"
 
 (* the struct part of the stsc token: entries;single;ids (the 4th field, what Encode writes, is derived) *)
